@@ -317,3 +317,14 @@ pub fn read_n(a: &Args) {
         }
     }
 }
+
+/// reader_actor good=<n> tail=<bytes> piece=<n> max=<n>
+pub fn reader_actor(a: &Args) {
+    let tail: Vec<u8> = a.list_u128("tail").iter().map(|x| *x as u8).collect();
+    let rt = tokio::runtime::Builder::new_current_thread().enable_time().build().unwrap();
+    let (n, status, sink_alive) =
+        rt.block_on(ractor_cluster::verif_session_probe::verif_reader_actor(a.usize("good"), tail, a.usize("piece"), a.opt_u128("max").unwrap_or(1 << 20) as u64));
+    println!("frames={}", n);
+    println!("reader_status={}", status);
+    println!("session_alive={}", sink_alive as u8);
+}
